@@ -3290,6 +3290,49 @@ stoCAlloc(unsigned code, ULong nbytes)
 }
 
 
+#ifdef ALDOR_VERIF
+/*
+ * Verification hook H1: ALDOR_VERIF_GC=k:j forces a collection at every
+ * allocation whose ordinal number is congruent to j modulo k.
+ */
+/* In the compiler the schedule starts when the interpreter begins to run the
+ * program (stoVerifArm), unless ALDOR_VERIF_GC_ALWAYS is set; in the run-time
+ * library (FOAM_RTS) it is active from the start. */
+#ifdef FOAM_RTS
+static int	stoVerifArmed = 1;
+#else
+static int	stoVerifArmed = 0;
+#endif
+void
+stoVerifArm(int on)
+{
+	stoVerifArmed = on;
+}
+
+local void
+stoVerifForcedGc(void)
+{
+	static long	k = -1, j = 0, n = 0;
+	if (!stoVerifArmed) {
+		static int always = -1;
+		if (always == -1) always = getenv("ALDOR_VERIF_GC_ALWAYS") != 0;
+		if (!always) return;
+	}
+	if (k == -1) {
+		const char *e = getenv("ALDOR_VERIF_GC");
+		k = 0;
+		if (e && *e) {
+			k = atol(e);
+			while (*e && *e != ':') e++;
+			if (*e == ':') j = atol(e + 1);
+			if (k < 0) k = 0;
+		}
+	}
+	if (k > 0 && (n++ % k) == (j % k))
+		stoGc();
+}
+#endif
+
 MostAlignedType *
 stoAlloc(unsigned code, ULong nbytes)
 {
@@ -3300,6 +3343,9 @@ stoAlloc(unsigned code, ULong nbytes)
 
 	if (!stoIsInit && !stoInit())
 		return (*stoError)(StoErr_CantBuild);
+#ifdef ALDOR_VERIF
+	stoVerifForcedGc();
+#endif
 
 #ifdef USE_MEMORY_CLIMATE
 	code = getMemoryClimate();
